@@ -297,4 +297,138 @@ theorem decode_sequence (o : DecApi.Opts) (w : Wire.Opts) (h : Wire.Hdr) (kept :
   rw [hcrc]
   simp only [release, resetSeq, d3, s1msgs, List.append_nil, List.reverse_reverse, d5, s1hdr, d4, s1o]
 
+/-! ### chained files: the `Next` / `Decode` loop -/
+
+/-- everything the theorems need of one file: the wire-level typing (`FitOK`, `MsgTyped`), what validation guarantees
+(`KeptOK`), the typing assumptions (`MsgDom`) -/
+structure FileOK (o : DecApi.Opts) (w : Wire.Opts) (h : Wire.Hdr) (kept : List Message) : Prop where
+  fit : FitOK w h (kept.map (toWire w.arch))
+  typed : ∀ m ∈ kept.map (toWire w.arch), MsgTyped m
+  keptOK : KeptOK {} kept
+  dom : ∀ m ∈ kept, MsgDom o.fac m
+  pv : h.protoVer < 256
+
+def chainBytes (w : Wire.Opts) (files : List (Wire.Hdr × List Message)) : List Nat :=
+  files.flatMap fun f => encodeFit w f.1 (f.2.map (toWire w.arch))
+
+theorem hdrBytes_bytes (h : Wire.Hdr) (ds : Nat) (hs : h.size = 12 ∨ h.size = 14) (hpv : h.protoVer < 256) :
+    DecApi.IsBytes (hdrBytes h ds) := by
+  intro b hb
+  have hcrc : write 0 ([h.size, h.protoVer] ++ Wire.le16 h.profileVer ++ Wire.le32 ds ++ [0x2E, 0x46, 0x49, 0x54]) < 2 ^ 16 :=
+    write_lt 0 (by decide) _
+  simp only [hdrBytes] at hb
+  split at hb
+  · simp only [Wire.le16, Wire.le32, List.mem_append, List.mem_cons, List.not_mem_nil, or_false] at hb
+    rcases hs with h1 | h1 <;> omega
+  · simp only [Wire.le16, Wire.le32, List.mem_append, List.mem_cons, List.not_mem_nil, or_false] at hb
+    rcases hs with h1 | h1 <;> omega
+
+theorem encodeFit_bytes (o : DecApi.Opts) (w : Wire.Opts) (hw : OptsOK w) (h : Wire.Hdr) (kept : List Message)
+    (hf : FileOK o w h kept) : DecApi.IsBytes (encodeFit w h (kept.map (toWire w.arch))) := by
+  simp only [encodeFit]
+  rw [DecApi.IsBytes.append, DecApi.IsBytes.append]
+  refine ⟨⟨hdrBytes_bytes h _ hf.fit.size hf.pv, ?_⟩, le16_bytes _⟩
+  exact encodeMsgs_bytes (fun _ => false) w hw.arch _ (freshEnc w) DecState.fresh
+    (fun m hm => ⟨hf.fit.msgs m hm, hf.typed m hm⟩) (DefInv.fresh w.arch w.lruCap hw.capPos hw.cap16 _) hw.cap4 (fun _ => Or.inl rfl)
+
+theorem chainBytes_bytes (o : DecApi.Opts) (w : Wire.Opts) (hw : OptsOK w) (files : List (Wire.Hdr × List Message))
+    (hf : ∀ f ∈ files, FileOK o w f.1 f.2) : DecApi.IsBytes (chainBytes w files) := by
+  intro b hb
+  obtain ⟨f, hfm, hb⟩ := List.mem_flatMap.mp hb
+  exact encodeFit_bytes o w hw f.1 f.2 (hf f hfm) b hb
+
+theorem encodeFit_pos (w : Wire.Opts) (h : Wire.Hdr) (ms : List WMsg) : 0 < (encodeFit w h ms).length := by
+  simp only [encodeFit, hdrBytes, List.length_append]
+  split <;> simp [Wire.le16, Wire.le32]
+
+/-- `Decode` after `Next` has read the header is `Decode` -/
+theorem stepDecode_of_header (s s1 : St) (he : s.q.err = none) (h : headerOnce s = .ok s1) (hd : s1.q.hdrDone = true)
+    (he1 : s1.q.err = none) : stepDecode s1 = stepDecode s := by
+  unfold stepDecode decodeBody
+  rw [he, he1, h, headerOnce_done s1 hd he1]
+
+/-- `Next` at the start of an encoder-written sequence (not the first one) reads its header -/
+theorem headerOnce_fresh_ok (o : DecApi.Opts) (w : Wire.Opts) (h : Wire.Hdr) (ms : List WMsg) (tail : List Nat)
+    (hf : FitOK w h ms) :
+    ∃ s1, headerOnce (St.fresh o (encodeFit w h ms ++ tail)) = .ok s1 ∧ s1.q.hdrDone = true ∧ s1.q.err = none := by
+  have hn : (encodeMsgs w (freshEnc w) ms).length < 4294967296 := hf.small
+  have hpos := encodeMsgs_pos w (freshEnc w) ms hf.nonempty
+  have hhdr := decodeFileHeader_hdrBytes (St.fresh o (encodeFit w h ms ++ tail)) h (encodeMsgs w (freshEnc w) ms).length
+    (encodeMsgs w (freshEnc w) ms ++ Wire.le16 (write 0 (encodeMsgs w (freshEnc w) ms)) ++ tail)
+    (by simp [St.fresh, encodeFit, Nat.mod_eq_of_lt hn]) rfl hf.size hf.profile hpos hn
+  unfold headerOnce
+  simp only [St.fresh, Bool.false_eq_true, ↓reduceIte] at hhdr ⊢
+  rw [hhdr]
+  exact ⟨_, rfl, rfl, rfl⟩
+
+theorem headerOnce_empty (o : DecApi.Opts) : headerOnce (St.fresh o []) = .err .eof := by
+  unfold headerOnce decodeFileHeader rawRead
+  simp [St.fresh, Fit.Integrity.hasN, reservedbuf, bind, Res.bind]
+
+/-- a decoded sequence matches a file: its messages are the file's validated messages, each in one of its allowed forms,
+under the file's header -/
+def FitMatch (o : DecApi.Opts) (w : Wire.Opts) (file : Wire.Hdr × List Message) (f : DecApi.Fit) : Prop :=
+  seqMatches reread true o.fac w.arch {} file.2 (f.msgs.map proj) = true ∧
+    f.hdr.size = file.1.size ∧ f.hdr.protoVer = file.1.protoVer ∧ f.hdr.profileVer = file.1.profileVer
+
+/-- **The `for dec.Next() { dec.Decode() }` loop over a chain** returns one matching sequence per file, in order, and
+ends without error. -/
+theorem decodeLoop_chain (o : DecApi.Opts) (w : Wire.Opts) (ho : PlainOpts o) (hw : OptsOK w) (hfac : facOKB o.fac = true) :
+    ∀ (files : List (Wire.Hdr × List Message)) (a : Api) (fuel : Nat),
+    a.d = St.fresh o (chainBytes w files) → (a.n = 0 → files ≠ []) → files.length < fuel →
+    (∀ f ∈ files, FileOK o w f.1 f.2) → (chainBytes w files).length < 4294967296 →
+    ∃ fits, decodeLoop fuel a = (fits, none) ∧ AllMatch (FitMatch o w) files fits := by
+  intro files
+  induction files with
+  | nil =>
+    intro a fuel had hn hfuel _ _
+    have hn0 : (a.n == 0) = false := by
+      cases h : a.n == 0
+      · rfl
+      · exact absurd rfl (hn (by simpa using h))
+    cases fuel with
+    | zero => omega
+    | succ fuel =>
+      refine ⟨[], ?_, AllMatch.nil⟩
+      simp only [decodeLoop, DecApi.step, stepNext, hn0, had, chainBytes, List.flatMap_nil, Bool.false_eq_true, ↓reduceIte]
+      rw [headerOnce_empty]
+      rfl
+  | cons file files ih =>
+    intro a fuel had hn hfuel hok hsmall
+    cases fuel with
+    | zero => omega
+    | succ fuel =>
+      have hfile := hok file (by simp)
+      have hcb : chainBytes w (file :: files) = encodeFit w file.1 (file.2.map (toWire w.arch)) ++ chainBytes w files := by
+        simp [chainBytes]
+      rw [hcb] at had hsmall
+      obtain ⟨f, hdec, hmatch, hh1, hh2, hh3⟩ := decode_sequence o w file.1 file.2 (chainBytes w files) ho hw hfile.fit hfile.typed
+        (chainBytes_bytes o w hw files (fun g hg => hok g (List.mem_cons_of_mem _ hg))) hsmall hfac hfile.keptOK hfile.dom
+      have hpos := encodeFit_pos w file.1 (file.2.map (toWire w.arch))
+      -- the state after `Next`, and `Decode` from there
+      have hnext : ∃ a1, DecApi.step a .next = (a1, .bool true, []) ∧ stepDecode a1.d = stepDecode a.d ∧
+          a1.n + (a1.d.rest.length - (chainBytes w files).length) ≠ 0 := by
+        by_cases hz : a.n = 0
+        · refine ⟨a, ?_, rfl, ?_⟩
+          · have he : a.d.q.err = none := by rw [had]; rfl
+            simp only [DecApi.step, stepNext, he, hz, beq_self_eq_true, ↓reduceIte, Api.advance_same]
+          · rw [had]; simp only [St.fresh, List.length_append]; omega
+        · have hz' : (a.n == 0) = false := by simpa using hz
+          obtain ⟨s1, hs1, hd1, he1⟩ := headerOnce_fresh_ok o w file.1 (file.2.map (toWire w.arch)) (chainBytes w files) hfile.fit
+          refine ⟨a.advance s1, ?_, ?_, ?_⟩
+          · simp only [DecApi.step, stepNext, hz', had, Bool.false_eq_true, ↓reduceIte, hs1]
+            rfl
+          · simp only [Api.advance]
+            rw [had]
+            exact stepDecode_of_header _ s1 rfl hs1 hd1 he1
+          · simp only [Api.advance]; omega
+      obtain ⟨a1, hn1, hd1, hne1⟩ := hnext
+      rw [had] at hd1
+      obtain ⟨fits, hl, hm⟩ := ih (a1.advance (St.fresh o (chainBytes w files))) fuel rfl
+        (by intro h0; simp only [Api.advance, St.fresh] at h0; exact absurd h0 hne1) (by simp at hfuel; omega)
+        (fun g hg => hok g (List.mem_cons_of_mem _ hg)) (by rw [List.length_append] at hsmall; omega)
+      refine ⟨f :: fits, ?_, AllMatch.cons ⟨hmatch, hh1, hh2, hh3⟩ hm⟩
+      simp only [decodeLoop, hn1]
+      simp only [DecApi.step, hd1, hdec, hl]
+
 end Fit.E2E
